@@ -1,6 +1,7 @@
 package p_errors
 
 import (
+	"fmt"
 	"math"
 	"strings"
 	"testing"
@@ -38,6 +39,13 @@ var Objects = []*Obj{
 		M: map[string]int{"k:1": 7, "\x1bjson": -1}, In: &Obj{S: "inner\x1b", N: math.MaxInt64, X: map[string]string{"\"": "}"}}},
 }
 
+// SizeTargets are the exact lengths of err.Error() of the sized chains: around powers of two up to 64 KiB.
+var SizeTargets = []int{100, 255, 256, 257, 1023, 1024, 1025, 3000, 4095, 4096, 4097, 5000, 16383, 16384, 16385, 40000, 65535, 65536, 65537}
+
+// PadPlaces are the places the padding goes to: a text inside / outside the embedding, the object's string, many
+// array elements, many fields.
+var PadPlaces = []string{"pre:0", "post:1", "obj.s", "obj.l", "obj.x"}
+
 // Messages of the exhaustive code part.
 var Messages = []string{"", "ha ha", "file does not exist", "internal system error", "a: b: c", "100%d", "\x1b", "\x1bjso", "json",
 	`{"a":1}`, "rpc error: code = OK desc = ", "日本語 😀", "\x1bjso\x1bjso n"}
@@ -65,20 +73,71 @@ func TestC19Exhaustive(t *testing.T) {
 			wraps[i] = Styles[e]
 		}
 		for _, cls := range CodedClasses {
-			run(Case{Kind: "chain", Class: cls, Wraps: wraps, Embed: -1})
+			run(Case{Kind: "chain", Chain: Chain{Class: cls, Wraps: wraps, Embed: -1}})
 			chains++
 			for emb := 0; emb <= len(wraps); emb++ {
 				for _, o := range Objects {
-					run(Case{Kind: "chain", Class: cls, Wraps: wraps, Embed: emb, Obj: o})
+					run(Case{Kind: "chain", Chain: Chain{Class: cls, Wraps: wraps, Embed: emb, Obj: o}})
 					chains++
 				}
 			}
 		}
 	})
+	// sizes: finished chains of exactly the target length, the padding at every kind of place
+	sized, batches := int64(0), int64(0)
+	deal := 0
+	mine := func() bool { deal++; return deal%shards == shard }
+	for ti, target := range SizeTargets {
+		for emb := -1; emb <= 2; emb++ {
+			for pi, pad := range PadPlaces {
+				if emb < 0 && strings.HasPrefix(pad, "obj.") {
+					continue
+				}
+				if !mine() {
+					continue
+				}
+				ch := Chain{Class: CodedClasses[(ti+pi+emb+1)%len(CodedClasses)], Wraps: []Wrap{Styles[1], Styles[2]}, Embed: emb, Target: target, Pad: pad}
+				if emb >= 0 {
+					ch.Obj = Objects[(ti+pi)%len(Objects)]
+				}
+				run(Case{Kind: "chain", Chain: ch})
+				sized++
+			}
+		}
+	}
+	// batches: 2..8 chains with distinct objects, all built before the first check
+	for k := 2; k <= 8; k++ {
+		for d := 0; d <= 2; d++ {
+			for _, outer := range []bool{false, true} {
+				for _, eager := range []bool{false, true} {
+					if !mine() {
+						continue
+					}
+					c := Case{Kind: "batch", Eager: eager, Chain: Chain{Embed: -1}}
+					for i := 0; i < k; i++ {
+						ch := Chain{Class: CodedClasses[(i+k+d)%len(CodedClasses)], Embed: 0}
+						for w := 0; w < d; w++ {
+							ch.Wraps = append(ch.Wraps, Styles[1+(i+w)%3])
+						}
+						if outer {
+							ch.Embed = d
+						}
+						ch.Obj = &Obj{S: fmt.Sprintf("item-%d-of-%d", i, k), N: int64(i), L: make([]string, (k-i)%4)}
+						for j := range ch.Obj.L {
+							ch.Obj.L[j] = fmt.Sprintf("issue %d.%d", i, j)
+						}
+						c.Batch = append(c.Batch, ch)
+					}
+					run(c)
+					batches++
+				}
+			}
+		}
+	}
 	if shard == 0 {
 		for code := uint32(0); code < NumCodes; code++ {
 			for _, m := range Messages {
-				run(Case{Kind: "code", Code: code, Msg: m, Embed: -1})
+				run(Case{Kind: "code", Code: code, Msg: m, Chain: Chain{Embed: -1}})
 				codesN++
 			}
 		}
@@ -86,7 +145,9 @@ func TestC19Exhaustive(t *testing.T) {
 	st.SetExhaustive("errors_class_x_wraplists_x_embedlevel_x_object_and_code_x_message", map[string]any{
 		"classes_with_code": len(CodedClasses), "other_classes_checked_per_chain": len(distinctClasses()) - 1,
 		"wrap_styles": len(Styles), "wrap_depth": depth, "wrap_lists_this_shard": lists, "objects": len(Objects),
-		"chain_cases_this_shard": chains, "codes": NumCodes, "messages": len(Messages), "code_cases_this_shard": codesN, "shards": shards})
+		"chain_cases_this_shard": chains, "codes": NumCodes, "messages": len(Messages), "code_cases_this_shard": codesN,
+		"size_targets": SizeTargets, "pad_places": PadPlaces, "sized_chain_cases_this_shard": sized,
+		"batch_sizes": "2..8", "batch_cases_this_shard": batches, "shards": shards})
 }
 
 // text pieces: ASCII, unicode, JSON fragments, colons, '%', ESC, "json", marker prefixes, class and gRPC phrases
@@ -153,11 +214,33 @@ func genObj(t *rapid.T, label string, nest int) *Obj {
 	return o
 }
 
-func genCase(t *rapid.T) Case {
-	if rapid.IntRange(0, 9).Draw(t, "kind") == 0 {
-		return Case{Kind: "code", Code: uint32(rapid.IntRange(0, NumCodes-1).Draw(t, "code")), Msg: genText(t, "msg"), Embed: -1}
+// genTarget draws a target length: nothing (most of the time), around a power of two, or log-uniform up to ~70 KB.
+func genTarget(t *rapid.T, big int) (int, string) {
+	target := 0
+	switch k := rapid.IntRange(0, 19).Draw(t, "sizeClass"); {
+	case k < 20-big:
+	case k%2 == 0:
+		p := rapid.SampledFrom([]int{256, 1024, 4096, 4096, 16384, 65536}).Draw(t, "pow2")
+		target = p + rapid.OneOf(rapid.IntRange(-2, 2), rapid.IntRange(-64, 64)).Draw(t, "delta")
+	default:
+		bits := rapid.IntRange(6, 16).Draw(t, "bits")
+		target = rapid.IntRange(1<<bits, 2<<bits).Draw(t, "target")
+		if target > 70000 {
+			target = 70000
+		}
 	}
-	c := Case{Kind: "chain", Embed: -1}
+	if target == 0 {
+		return 0, ""
+	}
+	pad := rapid.SampledFrom([]string{"pre", "post", "obj.s", "obj.l", "obj.x"}).Draw(t, "padPlace")
+	if pad == "pre" || pad == "post" {
+		pad = fmt.Sprintf("%s:%d", pad, rapid.IntRange(0, 6).Draw(t, "padLevel"))
+	}
+	return target, pad
+}
+
+func genChain(t *rapid.T, big int) Chain {
+	c := Chain{Embed: -1}
 	c.Class = rapid.SampledFrom(CodedClasses).Draw(t, "class")
 	depth := rapid.IntRange(0, vstat.Pick(4, 6)).Draw(t, "depth")
 	c.Wraps = make([]Wrap, depth)
@@ -168,7 +251,30 @@ func genCase(t *rapid.T) Case {
 		c.Embed = rapid.IntRange(0, depth).Draw(t, "embedLevel")
 		c.Obj = genObj(t, "obj.", 2)
 	}
+	c.Target, c.Pad = genTarget(t, big)
 	return c
+}
+
+func genCase(t *rapid.T) Case {
+	switch rapid.IntRange(0, 9).Draw(t, "kind") {
+	case 0:
+		return Case{Kind: "code", Code: uint32(rapid.IntRange(0, NumCodes-1).Draw(t, "code")), Msg: genText(t, "msg"), Chain: Chain{Embed: -1}}
+	case 1, 2:
+		c := Case{Kind: "batch", Chain: Chain{Embed: -1}, Eager: rapid.Bool().Draw(t, "eager")}
+		k := rapid.IntRange(2, 8).Draw(t, "batchSize")
+		for i := 0; i < k; i++ {
+			ch := genChain(t, 1)
+			if ch.Embed >= 0 {
+				// distinct objects per error: the position in the batch goes into the object
+				o := *ch.Obj
+				o.N = o.N&^15 | int64(i)
+				ch.Obj = &o
+			}
+			c.Batch = append(c.Batch, ch)
+		}
+		return c
+	}
+	return Case{Kind: "chain", Chain: genChain(t, 4)}
 }
 
 func TestC19Rapid(t *testing.T) {
